@@ -117,6 +117,8 @@ ArrayOps(path, m, n) ==
     IF m.f = "fixed" /\ scal THEN
         {Op(path, "setitem", 0, i, 0, 0, x, <<>>) : i \in Idx(n), x \in Good(t) \cup Bad(t)}
         \cup {Op(path, "setslice", 0, lo, hi, 0, "", xs) : lo \in SliceBounds(n), hi \in SliceBounds(n), xs \in ArgSeqs(t)}
+        \* the same slice written with an explicit step of 1: x[lo:hi:1] = xs (an ordinary, resizing slice in Python)
+        \cup {Op(path, "setslice1", 0, lo, hi, 0, "", xs) : lo \in {1, NoneIdx}, hi \in SliceBounds(n), xs \in ArgSeqs(t)}
     ELSE IF m.f = "fixed" THEN {}
     ELSE IF scal THEN
         {Op(path, "append", 0, 0, 0, 0, x, <<>>) : x \in Good(t) \cup Bad(t)}
@@ -124,6 +126,7 @@ ArrayOps(path, m, n) ==
         \cup {Op(path, "extend", 0, 0, 0, 0, "", xs) : xs \in ArgSeqs(t)}
         \cup {Op(path, "setitem", 0, i, 0, 0, x, <<>>) : i \in Idx(n), x \in Good(t) \cup {CHOOSE w \in Bad(t) : TRUE}}
         \cup {Op(path, "setslice", 0, lo, hi, 0, "", xs) : lo \in SliceBounds(n), hi \in SliceBounds(n), xs \in ArgSeqs(t)}
+        \cup {Op(path, "setslice1", 0, lo, hi, 0, "", xs) : lo \in {1, NoneIdx}, hi \in SliceBounds(n), xs \in ArgSeqs(t)}
         \cup {Op(path, "setstep", 0, lo, hi, st, "", xs) : lo \in {0, 1, NoneIdx}, hi \in {NoneIdx}, st \in {2, -1}, xs \in ArgSeqs(t)}
         \cup {Op(path, "delitem", 0, i, 0, 0, "", <<>>) : i \in Idx(n)}
         \cup {Op(path, "delslice", 0, lo, hi, 0, "", <<>>) : lo \in SliceBounds(n), hi \in SliceBounds(n)}
@@ -262,7 +265,7 @@ ArrayOp(m, v, op, other) ==
             IF op.arg \notin Good(t) THEN {Res("reject", v)} \cup (IF IndexOK(op.i1, n) THEN {} ELSE {Res("index", v)})
             ELSE IF IndexOK(op.i1, n) THEN {Res("ok", put([s EXCEPT ![Pos(op.i1, n)] = Sc(Canon(t, op.arg))]))}
             ELSE {Res("index", v)}
-      [] op.op = "setslice" ->
+      [] op.op \in {"setslice", "setslice1"} ->
             IF ~AllGood(t, op.args) THEN {Res("reject", v)}
             ELSE IF m.f = "fixed"
                  THEN IF SliceLen(s, op.i1, op.i2) = Len(op.args) /\ Lo(op.i1, n) <= Hi(op.i2, n)
